@@ -185,3 +185,53 @@ Proof.
     apply split_slash_nn. apply tl_nn. apply ensure_slash_nn. assumption. }
   apply Forall_app in Hall. apply Hall.
 Qed.
+
+(* ---------- in the name-space model the checked path is link-free: every proper ancestor is a directory NODE and the
+   last component is a directory / regular / other node (never a link), i.e. all symbolic links have been followed ---------- *)
+Fixpoint all_dirs (fs : fsdesc) (cur : list (list N)) : Prop :=
+  match cur with
+  | [] => True
+  | c :: r => fs_lookup fs (render (rev (c :: r))) = Some NDir /\ all_dirs fs r
+  end.
+
+Definition real_node (fs : fsdesc) (res : list (list N)) : Prop :=
+  all_dirs fs res \/
+  exists c r, res = c :: r /\ all_dirs fs r /\
+    ((exists id, fs_lookup fs (render (rev res)) = Some (NReg id)) \/ (exists m, fs_lookup fs (render (rev res)) = Some (NOther m))).
+
+Lemma all_dirs_tl fs cur : all_dirs fs cur -> all_dirs fs (tl cur).
+Proof. destruct cur; cbn [tl all_dirs]. auto. intros [_ H]. exact H. Qed.
+
+Lemma rp_walk_real fs fuel : forall cur todo res, all_dirs fs cur ->
+  rp_walk fs fuel cur todo = Some res -> real_node fs res.
+Proof.
+  induction fuel as [|f IH]; intros cur todo res Hc H; cbn [rp_walk] in H. discriminate.
+  destruct todo as [|c rest]. inversion H; subst. left. assumption.
+  destruct (is_nil c || is_dot c). eapply IH; eassumption.
+  destruct (is_dotdot c). eapply IH. 2: eassumption. apply all_dirs_tl. assumption.
+  destruct (fs_lookup fs (render (rev (c :: cur)))) as [[| id | t | m]|] eqn:El. 5: discriminate.
+  - eapply IH. 2: eassumption. cbn [all_dirs]. split; assumption.
+  - destruct (is_nil rest). 2: discriminate. inversion H; subst. right. exists c, cur. split. reflexivity. split. assumption.
+    left. exists id. exact El.
+  - destruct t as [|x t']. discriminate. eapply IH. 2: eassumption. destruct (x =? slash). exact I. assumption.
+  - destruct (is_nil rest). 2: discriminate. inversion H; subst. right. exists c, cur. split. reflexivity. split. assumption.
+    right. exists m. exact El.
+Qed.
+
+Theorem fs_checked_path_link_free fs cfg f real :
+  check_symlinks cfg = true ->
+  check_in_document_root (fs_realpath fs) cfg f = Some real ->
+  exists res, real = render (rev res) /\ real_node fs res.
+Proof.
+  intros Hc H. unfold check_in_document_root in H.
+  destruct (match select_alias (aliases cfg) (normalize f) with Some x => x | None => (docroot cfg, normalize f) end)
+    as [root normal].
+  cbn [fst snd] in H. destruct normal as [|c x]. discriminate.
+  destruct (negb (c =? slash)). discriminate. rewrite Hc in H. unfold is_in_root in H.
+  destruct (fs_realpath fs (cstr (root ++ slash :: c :: x))) as [q|] eqn:Eq. 2: discriminate.
+  destruct (is_file_prefix root q). 2: discriminate. inversion H; subst q.
+  unfold fs_realpath in Eq. destruct (cstr (root ++ slash :: c :: x)) as [|a r]. discriminate.
+  destruct (a =? slash). 2: discriminate.
+  destruct (rp_walk fs (fs_fuel fs (a :: r)) [] (split_slash r)) as [cur|] eqn:Ew. 2: discriminate.
+  inversion Eq; subst. exists cur. split. reflexivity. eapply rp_walk_real. 2: exact Ew. exact I.
+Qed.
